@@ -80,6 +80,7 @@ type world struct {
 }
 
 func newWorld() *world {
+	_ = slog.RegisterLevel(slog.Level(41), "plainforty") // registered, no colours, no tags
 	wd := &world{log: vlib.NewEventLog()}
 	wd.w = vlib.NewRec(wd.log, 1, 0)
 	root := slog.New("root")
@@ -121,15 +122,21 @@ func (wd *world) checkGetters(t vlib.TB, hist func() string) {
 	}
 }
 
+// severities of the probes: built-in ones, one registered without colours, one never registered
+var probeSevs = []slog.Level{slog.InfoLevel, slog.ErrorLevel, slog.DebugLevel, slog.AlwaysLevel, slog.Level(41), slog.Level(77), slog.Level(-3)}
+var probeCounter int
+
 func (wd *world) probe(t vlib.TB, i int, hist func() string) {
 	before := wd.log.Len()
-	wd.loggers[i].LogAttrs(context.Background(), slog.InfoLevel, "format probe", "k", 1, "s", "v")
+	probeCounter++
+	sev := probeSevs[probeCounter%len(probeSevs)]
+	wd.loggers[i].LogAttrs(context.Background(), sev, "format probe", "k", 1, "s", "v")
 	evs := wd.log.Snapshot()[before:]
 	if len(evs) != 1 {
 		t.Fatalf("C11 harness: expected one record, got %d", len(evs))
 	}
 	if got := classify(evs[0].Payload); got != wd.states[i].String() {
-		t.Fatalf("C11 after [%s]: logger L%d should be %v but its record has the shape of %q: %q", hist(), i, wd.states[i], got, evs[0].Payload)
+		t.Fatalf("C11 after [%s]: logger L%d should be %v but its record (severity %d) has the shape of %q: %q", hist(), i, wd.states[i], int(sev), got, evs[0].Payload)
 	}
 }
 
